@@ -12,6 +12,7 @@ func init() {
 	vHarnesses["H_C14_boundary"] = H_C14_boundary
 	vHarnesses["H_C14_skiptag"] = H_C14_skiptag
 	vHarnesses["H_C14_seq"] = H_C14_seq
+	vHarnesses["H_C14_structure"] = H_C14_structure
 }
 
 type vCastOpts struct {
@@ -265,4 +266,66 @@ func H_C14_seq() {
 		}
 	}
 	vCover("seq")
+}
+
+// casting changes leaf types only, also under the structural decoder options (tag sequence
+// numbers, simple values as maps): cast and un-cast decoding give the same keys and nesting
+func H_C14_structure() {
+	vResetDecOpts()
+	texts := []string{"7", "2.5", "true", "x", "-1", "18446744073709551615", "010"}
+	t1, t2, t3 := texts[vChoose(len(texts))], texts[vChoose(len(texts))], texts[vChoose(len(texts))]
+	doc := "<r n=\"" + t3 + "\"><a>" + t1 + "</a><b>" + t2 + "</b><c/><a>" + t2 + "</a></r>"
+	o := vCastOpts{toInt: vNondetBool(), toFloat: vNondetBool(), toBool: vNondetBool()}
+	seqnum, asMap := vNondetBool(), vNondetBool()
+	IncludeTagSeqNum(seqnum)
+	DecodeSimpleValuesAsMap(asMap)
+	CastValuesToInt(o.toInt)
+	CastValuesToFloat(o.toFloat)
+	CastValuesToBool(o.toBool)
+	mc, errc := NewMapXml([]byte(doc), true)
+	mp, errp := NewMapXml([]byte(doc))
+	vResetCastOpts()
+	vResetDecOpts()
+	vAssert(errc == nil && errp == nil, "cast(structure): decodes with and without the cast flag")
+	var same func(a, b interface{}) bool
+	same = func(a, b interface{}) bool {
+		switch x := a.(type) {
+		case map[string]interface{}:
+			y, ok := b.(map[string]interface{})
+			if !ok || len(x) != len(y) {
+				return false
+			}
+			for k, v := range x {
+				w, has := y[k]
+				if !has || !same(v, w) {
+					return false
+				}
+			}
+			return true
+		case []interface{}:
+			y, ok := b.([]interface{})
+			if !ok || len(x) != len(y) {
+				return false
+			}
+			for i := range x {
+				if !same(x[i], y[i]) {
+					return false
+				}
+			}
+			return true
+		case string:
+			// the un-cast leaf is a string; the cast one is that string or the value it denotes
+			if ys, isStr := b.(string); isStr {
+				return ys == x
+			}
+			want, amb := refCast(x, o)
+			return amb || vSameCast(b, want)
+		case int: // sequence numbers are not leaves
+			y, ok := b.(int)
+			return ok && x == y
+		}
+		return false
+	}
+	vAssert(same(map[string]interface{}(mp), map[string]interface{}(mc)), "cast(structure): the cast Map has the keys, nesting and sequence numbers of the un-cast Map, and each leaf is the value its text denotes")
+	vCover("structure")
 }
